@@ -247,6 +247,10 @@ func ruleCalleeGone(c *Ctx, r4 string) {
 	// D28: a kill-mode cancel outstanding must not swallow the callee-gone reply
 	c.Reach(r4, rs, "outstanding kill-mode cancel does not suppress the reply (canceled mark cleared first)", ReachSpec{
 		Stop: `^store:range\(%d\.invocations\)#v\.&canceled=false$`, Target: goneCancel, Want: false})
+	// ... and only for the invocations of the leaving callee: another callee's outstanding kill-mode cancel stays marked
+	// (clearing it lets a second CANCEL interrupt that callee again and answer the caller twice)
+	c.Guard(r4, rs, "canceled mark cleared", `^store:.*\.&canceled=false$`, 1,
+		clause("invocation is served by the leaving session", T(`^\(%sess == range\(%d\.invocations\)#v\.callee\)$`)))
 }
 
 // ruleTimersStoppedOnRemoval: a call forgotten because its caller or callee left has its timeout timer stopped (else
